@@ -205,9 +205,17 @@ class Recorder:
             if pred is None:
                 continue
             try:
-                hit = bool(pred(case, v))
+                hit = pred(case, v)
             except Exception:  # a predicate must never hide a violation
                 hit = False
+            if hit is None:
+                # the predicate cannot be evaluated: the observation it needs (a hooked stage record) is not available
+                # on this tree, e.g. after a refactoring moved the hooked function. The witness can then neither be
+                # attributed to the listed finding nor be called a new violation: inconclusive, three-valued verdict
+                self.harness_problem(f"witness of kind {kind!r} could not be classified against known finding "
+                                     f"{mech!r}: the hooked observation it needs is missing on this tree")
+                self.counters["unclassifiable_witnesses"] += 1
+                return
             if hit:
                 k = self.known.setdefault(mech, {"count": 0, "witness": None})
                 k["count"] += 1
